@@ -84,7 +84,14 @@ pub fn text(rng: &mut Rng, n: usize) -> Vec<u8> {
 pub fn utf8_text(rng: &mut Rng, n_chars: usize) -> Vec<u8> {
     let mut s = String::new();
     for _ in 0..n_chars {
-        let c = match rng.below(4) {
+        let c = match rng.below(5) {
+            4 => {
+                if rng.chance(1, 4) {
+                    '\u{fffd}' // the replacement character itself is valid UTF-8
+                } else {
+                    (b'A' + rng.below(26) as u8) as char
+                }
+            }
             0 => (b'a' + rng.below(26) as u8) as char,
             1 => char::from_u32(0xa1 + rng.below(0x700) as u32).unwrap_or('é'),
             2 => char::from_u32(0x4e00 + rng.below(0x5000) as u32).unwrap_or('中'),
@@ -183,11 +190,46 @@ fn near_duplicate(out: &[Vec<u8>], rng: &mut Rng) -> Option<Vec<u8>> {
     None
 }
 
+/// the payload of an earlier script of the batch under a DIFFERENT template (same hash paid as
+/// P2PKH and as P2SH, a key used as P2PK whose bytes also appear as a P2PKH "hash", …)
+fn retarget(out: &[Vec<u8>], rng: &mut Rng, btc: bool) -> Option<Vec<u8>> {
+    if out.is_empty() {
+        return None;
+    }
+    for _ in 0..6 {
+        let s = rng.pick(out);
+        if let Some(toks) = crate::scriptref::tokenize(s) {
+            let payload = toks.iter().find_map(|t| match t {
+                crate::scriptref::Tok::Push(d) if !d.is_empty() && d.len() <= 75 => Some(d.clone()),
+                _ => None,
+            });
+            if let Some(p) = payload {
+                let k = rng.below(if btc && (p.len() == 20 || p.len() == 32) { 6 } else { 4 });
+                return Some(match k {
+                    0 => p2pkh(&p),
+                    1 => p2sh(&p),
+                    2 => p2pk(&p),
+                    3 => op_return(&p),
+                    4 => witness_prog(0, &p),
+                    _ => witness_prog(1, &p),
+                });
+            }
+        }
+    }
+    None
+}
+
 pub fn fork_scripts(rng: &mut Rng, n: usize) -> Vec<Vec<u8>> {
     let mut out: Vec<Vec<u8>> = Vec::with_capacity(n);
     while out.len() < n {
         if rng.chance(1, 16) {
             if let Some(v) = near_duplicate(&out, rng) {
+                out.push(v);
+                continue;
+            }
+        }
+        if rng.chance(1, 12) {
+            if let Some(v) = retarget(&out, rng, false) {
                 out.push(v);
                 continue;
             }
@@ -356,6 +398,12 @@ pub fn bitcoin_scripts(rng: &mut Rng, n: usize) -> Vec<Vec<u8>> {
                 continue;
             }
         }
+        if rng.chance(1, 12) {
+            if let Some(v) = retarget(&out, rng, true) {
+                out.push(v);
+                continue;
+            }
+        }
         match rng.below(16) {
             0..=3 => out.push(canon(rng)),
             4 | 5 => {
@@ -424,8 +472,13 @@ pub fn bitcoin_scripts(rng: &mut Rng, n: usize) -> Vec<Vec<u8>> {
             }
             14 => out.push(rng.bytes_range(0, 100)),
             _ => {
-                let l = *rng.pick(&[0usize, 1, 2, 3, 4, 41, 42, 43, 1000, 10_000]);
-                out.push(rng.bytes(l));
+                let l = *rng.pick(&[0usize, 1, 2, 3, 4, 41, 42, 43, 1000, 9_999, 10_000, 10_001, 10_500, 20_000]);
+                let mut v = rng.bytes(l);
+                // long scripts with a harmless leading opcode (the lead decides unspendable/unrecognised)
+                if l > 100 && rng.coin() {
+                    v[0] = *rng.pick(&[0x51u8, 0x76, 0xa9, 0x00, 0x21, 0xac, 0x6a]);
+                }
+                out.push(v);
             }
         }
     }
